@@ -3,6 +3,7 @@ mod c03;
 mod c06;
 mod c07;
 mod c08;
+mod c09;
 mod c12;
 mod c13;
 mod c15;
@@ -27,6 +28,7 @@ fn registry(id: &str) -> Option<(RunFn, ReplayFn)> {
         "C06" => Some((c06::run, c06::replay)),
         "C07" => Some((c07::run, c07::replay)),
         "C08" => Some((c08::run, c08::replay)),
+        "C09" => Some((c09::run, c09::replay)),
         "C12" => Some((c12::run, c12::replay)),
         "C13" => Some((c13::run, c13::replay)),
         "C15" => Some((c15::run, c15::replay)),
